@@ -102,7 +102,7 @@ let defaults = [
   (* idioms: percent chance each per main *)
   "id_counter", 0; "id_adder", 0; "id_loopcap", 0; "id_reccap", 0; "id_compose", 0;
   "id_alias", 0; "id_catch", 0; "id_shadow", 0; "id_order", 0; "id_tail", 0; "id_agg", 0; "id_mutual", 0;
-  "id_pipe", 0; "pp_pipe", 0; "id_shadow2", 0;
+  "id_pipe", 0; "pp_pipe", 0; "id_shadow2", 0; "id_deepcap", 0;
   "id_repeat", 1;
 ]
 
@@ -115,10 +115,10 @@ let profiles = [
   "alias", ["id_alias", 100; "id_repeat", 4; "i_var", 50; "it_assign", 40; "it_var", 35; "it_let", 25;
             "t_rec", 18; "t_arr", 18; "varparam", 50; "dump", 95; "i_cond", 14; "i_assign", 10; "nrecs_max", 3;
             "x_var", 60; "i_block", 6];
-  "closure", ["id_counter", 70; "id_adder", 50; "id_loopcap", 40; "id_reccap", 50; "id_compose", 40;
+  "closure", ["id_deepcap", 75; "id_counter", 70; "id_adder", 50; "id_loopcap", 40; "id_reccap", 50; "id_compose", 40;
               "it_func", 22; "t_fun", 25; "i_fcall", 18; "i_applam", 6; "rf_fun", 30; "nfuncs_max", 4;
               "depth", 3; "dump", 70];
-  "shadow", ["shadow", 65; "id_shadow", 80; "id_shadow2", 60; "it_func", 16; "it_let", 30; "it_var", 30; "i_block", 10;
+  "shadow", ["shadow", 65; "id_shadow", 80; "id_shadow2", 60; "id_deepcap", 35; "it_func", 16; "it_let", 30; "it_var", 30; "i_block", 10;
              "i_applam", 6; "t_fun", 14; "dump", 80; "block_items", 3; "i_fcall", 10; "catch", 15];
   "loops", ["it_loop", 30; "i_loop", 4; "id_loopcap", 20; "main_items", 6; "dump", 80; "fault", 4;
             "t_arr", 16; "i_index", 14];
@@ -132,7 +132,7 @@ let profiles = [
               "nfuncs_max", 2; "main_items", 3; "depth", 2];
   "pipe", ["pp_pipe", 65; "id_pipe", 100; "id_repeat", 2; "i_call", 25; "i_fcall", 10; "it_call", 14; "it_func", 14; "t_fun", 14;
            "id_tail", 25; "id_order", 40; "f_rec", 25; "tail_lo", 30; "tail_hi", 120; "nfuncs_min", 2; "nfuncs_max", 4];
-  "mix", ["pp_pipe", 8; "id_pipe", 10; "id_counter", 15; "id_adder", 10; "id_loopcap", 10; "id_reccap", 10; "id_compose", 10; "id_alias", 25;
+  "mix", ["pp_pipe", 8; "id_pipe", 10; "id_deepcap", 15; "id_counter", 15; "id_adder", 10; "id_loopcap", 10; "id_reccap", 10; "id_compose", 10; "id_alias", 25;
           "id_catch", 25; "id_shadow", 15; "id_shadow2", 10; "id_order", 20; "id_agg", 20; "shadow", 15; "catch", 20; "fault", 8;
           "it_func", 10; "t_fun", 12];
 ]
